@@ -187,7 +187,11 @@ int EGLPNUM_TYPENAME_ILLmps_next_field (
 	{
 		if (sscanf (state->p, "%s", state->field) == 1)
 		{
-			state->p += strlen (state->field) + 1;
+			state->p += strlen (state->field);
+			/* step over the separator, but not over the end of the line: the
+			 * last line of a file may end without a newline */
+			if (*state->p != '\0')
+				state->p++;
 			state->field_num++;
 			return 0;
 		}
